@@ -70,7 +70,8 @@ def pieces_ref(vals):
         else: m.append(p)
     return m
 if status == 'ok' and PROG:
-    ast = [refsem.imp_stmt(st) for st in PROG[0].fields[0].d['b']]
+    try: ast = [refsem.imp_stmt(st) for st in PROG[0].fields[0].d['b']]
+    except NotImplementedError as e: ast = None
     real = pieces_real(so)
     def on_case(outcome, s):
         global verdict
@@ -91,6 +92,7 @@ if status == 'ok' and PROG:
             verdict += ' MISMATCH[ref=%s code=%d wit=%s]' % (ref, exp_code, {k: mdl.eval(h.v, model_completion=True).as_signed_long() for k, h in HOLES.items()})
         else: verdict += ' agree'
     try:
+        if ast is None: raise NotImplementedError('import')
         refsem.lockstep(list(M.solver.assertions()), ast, on_case)
     except NotImplementedError as e:
         verdict = ' ref-unsupported(%s)' % e
